@@ -849,6 +849,34 @@ func (env *Env) callSpec(e *ECall) (SVal, error) {
 		}
 		a := env.st.Get(x.mvName(mt, ls[0].Path), "(Array Int (Array "+ks+" "+ls[0].Sort+"))")
 		return SVal{Val: Val{L: []string{Select(a, v.L[0])}}, ghostSort: "(Array " + ks + " " + ls[0].Sort + ")"}, nil
+	case "visited":
+		// visited(N): the set of keys the N-th loop (a range over a map) has already handed out
+		lit, ok := e.Args[0].(*EInt)
+		if !ok || env.frame == nil {
+			return SVal{}, fmt.Errorf("visited(N) is only meaningful in the invariants of the enclosing function")
+		}
+		var n int
+		fmt.Sscanf(lit.V, "%d", &n)
+		f := env.frame
+		for hb, h := range f.heads {
+			if h.ordinal != n {
+				continue
+			}
+			for _, in := range hb.Instrs {
+				if nx, ok := in.(*ssa.Next); ok {
+					if r, ok := nx.Iter.(*ssa.Range); ok {
+						if mt, ok := r.X.Type().Underlying().(*types.Map); ok {
+							if ks, ok := keySort(mt.Key()); ok {
+								sort := "(Array " + ks + " Bool)"
+								t := env.st.Get("V:"+x.iterID(f, r), sort)
+								return SVal{Val: Val{L: []string{t}}, ghostSort: sort}, nil
+							}
+						}
+					}
+				}
+			}
+		}
+		return SVal{}, fmt.Errorf("loop %d is not a range over a map", n)
 	case "allocated":
 		// the reference denotes an object that exists in the current state (or nil)
 		v, err := env.evalRV(e.Args[0])
